@@ -19,6 +19,8 @@ no expected values: the only statement is the property's.
 import numpy as np
 import nixio
 
+from . import c12_respell as RS
+
 # ---------------------------------------------------------------------------------------------------
 # spellings: (label, factory(c) -> value).  Factories build a fresh object per call (generators!).
 
@@ -159,6 +161,9 @@ def _setter(key, attr):
     def call(c, v):
         setattr(c[key], attr, v)
     return call
+
+
+SCENE_ARRAYS = ("da", "d1", "ds", "dx", "dy", "da-extents", "d2")
 
 
 def _targets():
@@ -349,7 +354,7 @@ def _targets():
         lambda c: [c["b2"].data_arrays.__delitem__(x.name) for x in list(c["b2"].data_arrays) if x.name != "x"])
     add("create_data_array(name)", lambda c, v: c["b"].create_data_array(v, "t", data=[1.0]),
         lambda c: [c["b"].data_arrays.__delitem__(x.name) for x in list(c["b"].data_arrays)
-                   if x.name not in ("da", "d1", "ds", "dx", "da-extents", "d2")])
+                   if x.name not in SCENE_ARRAYS])
     add("create_data_array(type)", lambda c, v: c["b"].create_data_array("sweep-new", v, data=[1.0]), drop("data_arrays"))
     add("create_tag(position)", lambda c, v: c["b"].create_tag("sweep-new", "t", v), drop("tags"))
     add("create_tag(name)", lambda c, v: c["b"].create_tag(v, "t", [1.0]),
@@ -399,8 +404,303 @@ def _targets():
     return T
 
 
+# ---------------------------------------------------------------------------------------------------
+# multi-argument calls: every argument is varied in turn while the others keep a valid value
+#
+# A call is (label, fn(c, **kwargs), valid(c) -> {argument: valid value}, reset(c) | None).  Each argument
+# of each call becomes a target of the sweep "<label>(<argument>=)": the value offered replaces the valid value of
+# that one argument.  Offered are the respellings of the argument's own valid value (c12_respell.py: the same content
+# as tuple / ndarray / generator / NumPy scalar / enum text / entity id ...) and the common pool of spellings.
+
+
+def _calls():
+    C = []
+    DT = nixio.DataType
+    LT = nixio.LinkType
+
+    def add(label, fn, valid, reset=None):
+        C.append((label, fn, valid, reset))
+
+    def vec(c, short, long_):
+        return long_ if c["long"] else short
+
+    def drop_new(*conts):
+        """remove whatever the accepted call created under the names the table uses"""
+        def reset(c):
+            for owner, cont in conts:
+                lst = getattr(c[owner], cont)
+                for x in list(lst):
+                    if x.name.startswith("sweep-new"):
+                        del lst[x.name]
+        return reset
+
+    def drop_dims(key):
+        return lambda c: c[key].delete_dimensions()
+
+    # --- dimension links: the data object and the index of the tick vector / column
+    def relink_range(c):
+        c["rl"].link_data_array(c["d1"], [-1])
+
+    def relink_set(c):
+        c["sl"].link_data_frame(c["df"], 1)
+
+    def reticks(c):
+        if c["rd"].has_link:
+            c["rd"].remove_link()
+        c["rd"].ticks = vec(c, [1.0, 2.0], [1.0, 2.0, 3.0, 4.0])
+
+    def relabels(c):
+        if c["sd"].has_link:
+            c["sd"].remove_link()
+        c["sd"].labels = vec(c, ["a", "b"], ["a", "b", "c", "d"])
+    add("RangeDimension(ticks).link_data_array", lambda c, **kw: c["rd"].link_data_array(**kw),
+        lambda c: dict(data_array=c["d1"], index=[-1]), reticks)
+    add("RangeDimension(ticks).link_data_array(2d)", lambda c, **kw: c["rd"].link_data_array(**kw),
+        lambda c: dict(data_array=c["dy"], index=[0, -1]), reticks)
+    add("RangeDimension(linked).link_data_array", lambda c, **kw: c["rl"].link_data_array(**kw),
+        lambda c: dict(data_array=c["dx"], index=[-1]), relink_range)
+    add("RangeDimension(linked).link_data_array(2d)", lambda c, **kw: c["rl"].link_data_array(**kw),
+        lambda c: dict(data_array=c["da"], index=[-1, 1]), relink_range)
+    add("SetDimension(labels).link_data_array", lambda c, **kw: c["sd"].link_data_array(**kw),
+        lambda c: dict(data_array=c["ds"], index=[-1]), relabels)
+    add("SetDimension(linked).link_data_array", lambda c, **kw: c["sl"].link_data_array(**kw),
+        lambda c: dict(data_array=c["dy"], index=[1, -1]), relink_set)
+    add("RangeDimension(ticks).link_data_frame", lambda c, **kw: c["rd"].link_data_frame(**kw),
+        lambda c: dict(data_frame=c["df"], index=0), reticks)
+    add("RangeDimension(linked).link_data_frame", lambda c, **kw: c["rl"].link_data_frame(**kw),
+        lambda c: dict(data_frame=c["df"], index=0), relink_range)
+    add("SetDimension(labels).link_data_frame", lambda c, **kw: c["sd"].link_data_frame(**kw),
+        lambda c: dict(data_frame=c["df"], index=1), relabels)
+    add("SetDimension(linked).link_data_frame", lambda c, **kw: c["sl"].link_data_frame(**kw),
+        lambda c: dict(data_frame=c["df2"], index=0), relink_set)
+    add("DataArray.append_range_dimension_using_self", lambda c, **kw: c["dx"].append_range_dimension_using_self(**kw),
+        lambda c: dict(index=[-1]), drop_dims("dx"))
+    add("DataArray(2d,linked dims).append_range_dimension_using_self",
+        lambda c, **kw: c["dy"].append_range_dimension_using_self(**kw), lambda c: dict(index=[-1, 0]), None)
+    # --- appended dimensions: every keyword
+    add("DataArray.append_range_dimension", lambda c, **kw: c["dx"].append_range_dimension(**kw),
+        lambda c: dict(ticks=[1.0, 2.5], label="time", unit="ms"), drop_dims("dx"))
+    add("DataArray.append_sampled_dimension", lambda c, **kw: c["dx"].append_sampled_dimension(**kw),
+        lambda c: dict(sampling_interval=0.5, label="time", unit="ms", offset=1.5), drop_dims("dx"))
+    add("DataArray.append_set_dimension", lambda c, **kw: c["dx"].append_set_dimension(**kw),
+        lambda c: dict(labels=["p", "q"]), drop_dims("dx"))
+    # --- features
+    feat_reset = lambda key, keep: (lambda c: [c[key].features.__delitem__(x) for x in list(c[key].features)[keep:]])  # noqa
+    add("Tag.create_feature", lambda c, **kw: c["t"].create_feature(**kw),
+        lambda c: dict(data=c["d1"], link_type=LT.Untagged), feat_reset("t", 1))
+    add("Tag.create_feature(text link type)", lambda c, **kw: c["t"].create_feature(**kw),
+        lambda c: dict(data=c["da"], link_type="tagged"), feat_reset("t", 1))
+    add("MultiTag.create_feature", lambda c, **kw: c["mt"].create_feature(**kw),
+        lambda c: dict(data=c["d1"], link_type=LT.Indexed), feat_reset("mt", 0))
+    add("MultiTag.create_feature(frame)", lambda c, **kw: c["mt"].create_feature(**kw),
+        lambda c: dict(data=c["df"], link_type=LT.Untagged), feat_reset("mt", 0))
+    # --- creating calls with several arguments
+    add("Block.create_data_array(data)", lambda c, **kw: c["b"].create_data_array(**kw),
+        lambda c: dict(name="sweep-new", array_type="t", data=[1.0, 2.0], label="lbl", unit="mV",
+                       compression=nixio.Compression.No), drop_new(("b", "data_arrays")))
+    add("Block.create_data_array(ndarray)", lambda c, **kw: c["b"].create_data_array(**kw),
+        lambda c: dict(name="sweep-new", array_type="t", data=np.array([[1.0, 2.0], [3.0, 4.0]]), dtype=DT.Double,
+                       shape=(2, 2)), drop_new(("b", "data_arrays")))
+    add("Block.create_data_array(shape)", lambda c, **kw: c["b"].create_data_array(**kw),
+        lambda c: dict(name="sweep-new", array_type="t", dtype=np.float64, shape=(2, 3), unit="mV"),
+        drop_new(("b", "data_arrays")))
+    add("Block.create_data_array(python type)", lambda c, **kw: c["b"].create_data_array(**kw),
+        lambda c: dict(name="sweep-new", array_type="t", dtype=int, shape=[4]), drop_new(("b", "data_arrays")))
+    add("Block.create_data_array(copy)", lambda c, **kw: c["b2"].create_data_array(**kw),
+        lambda c: dict(name="sweep-new", copy_from=c["d1"], keep_copy_id=False), drop_new(("b2", "data_arrays")))
+    add("Block.create_tag", lambda c, **kw: c["b"].create_tag(**kw),
+        lambda c: dict(name="sweep-new", type_="t", position=[1.0, 2.0]), drop_new(("b", "tags")))
+    add("Block.create_tag(copy)", lambda c, **kw: c["b2"].create_tag(**kw),
+        lambda c: dict(name="sweep-new", copy_from=c["t"], keep_copy_id=True), drop_new(("b2", "tags")))
+    add("Block.create_multi_tag", lambda c, **kw: c["b"].create_multi_tag(**kw),
+        lambda c: dict(name="sweep-new", type_="t", positions=c["d1"], extents=c["d1"]), drop_new(("b", "multi_tags")))
+    add("Block.create_multi_tag(data)", lambda c, **kw: c["b"].create_multi_tag(**kw),
+        lambda c: dict(name="sweep-new", type_="t", positions=[1.0, 2.0], extents=[0.5, 0.5]),
+        drop_new(("b", "multi_tags"), ("b", "data_arrays")))
+    add("Block.create_multi_tag(copy)", lambda c, **kw: c["b2"].create_multi_tag(**kw),
+        lambda c: dict(name="sweep-new", copy_from=c["mt"], keep_copy_id=False), drop_new(("b2", "multi_tags")))
+    add("Block.create_data_frame(col_dict)", lambda c, **kw: c["b"].create_data_frame(**kw),
+        lambda c: dict(name="sweep-new", type_="t", col_dict={"a": int, "s": str}, data=[(1, "u"), (2, "v")],
+                       compression=nixio.Compression.No), drop_new(("b", "data_frames")))
+    add("Block.create_data_frame(col_names)", lambda c, **kw: c["b"].create_data_frame(**kw),
+        lambda c: dict(name="sweep-new", type_="t", col_names=["a", "x"], col_dtypes=[int, float]),
+        drop_new(("b", "data_frames")))
+    add("Block.create_data_frame(copy)", lambda c, **kw: c["b2"].create_data_frame(**kw),
+        lambda c: dict(name="sweep-new", copy_from=c["df"], keep_copy_id=False), drop_new(("b2", "data_frames")))
+    add("Block.create_group", lambda c, **kw: c["b"].create_group(**kw),
+        lambda c: dict(name="sweep-new", type_="t"), drop_new(("b", "groups")))
+    add("Block.create_source", lambda c, **kw: c["b"].create_source(**kw),
+        lambda c: dict(name="sweep-new", type_="t"), drop_new(("b", "sources")))
+    add("Source.create_source", lambda c, **kw: c["src"].create_source(**kw),
+        lambda c: dict(name="sweep-new", type_="t"), drop_new(("src", "sources")))
+    add("File.create_block", lambda c, **kw: c["f"].create_block(**kw),
+        lambda c: dict(name="sweep-new", type_="t", compression=nixio.Compression.DeflateNormal),
+        drop_new(("f", "blocks")))
+    add("File.create_block(copy)", lambda c, **kw: c["f"].create_block(**kw),
+        lambda c: dict(name="sweep-new", copy_from=c["b2"], keep_copy_id=False), drop_new(("f", "blocks")))
+    add("File.create_section", lambda c, **kw: c["f"].create_section(**kw),
+        lambda c: dict(name="sweep-new", type_="t", oid="4a6b1e0c-7d11-4c58-9f0e-3b5a2c1d0e9f"),
+        drop_new(("f", "sections")))
+    add("Section.create_section", lambda c, **kw: c["s"].create_section(**kw),
+        lambda c: dict(name="sweep-new", type_="t"), drop_new(("s", "sections")))
+    add("Section.create_property(values)", lambda c, **kw: c["s"].create_property(**kw),
+        lambda c: dict(name="sweep-new", values_or_dtype=[1.5, 2.5], oid="4a6b1e0c-7d11-4c58-9f0e-3b5a2c1d0e9f"),
+        drop_new(("s", "props")))
+    add("Section.create_property(single)", lambda c, **kw: c["s"].create_property(**kw),
+        lambda c: dict(name="sweep-new", values_or_dtype="text"), drop_new(("s", "props")))
+    add("Section.create_property(datatype)", lambda c, **kw: c["s"].create_property(**kw),
+        lambda c: dict(name="sweep-new", values_or_dtype=DT.Int64), drop_new(("s", "props")))
+    add("Section.create_property(copy)", lambda c, **kw: c["s2"].create_property(**kw),
+        lambda c: dict(name="sweep-new", copy_from=c["pr"], keep_copy_id=False), drop_new(("s2", "props")))
+    add("File.copy_section", lambda c, **kw: c["f"].copy_section(**kw),
+        lambda c: dict(obj=c["s2"], children=True, keep_id=False, name="sweep-new"), drop_new(("f", "sections")))
+    add("Section.copy_section", lambda c, **kw: c["s2"].copy_section(**kw),
+        lambda c: dict(obj=c["s"], children=False, keep_id=True, name="sweep-new"), drop_new(("s2", "sections")))
+    add("Section[key]=", lambda c, **kw: c["s"].__setitem__(kw["key"], kw["data"]),
+        lambda c: dict(key="sweep-new", data=[1, 2]), drop_new(("s", "props"), ("s", "sections")))
+    # --- array data: the value and where it goes
+
+    def d1_reset(c):
+        n = 5 if c["long"] else 3
+        c["d1"].data_extent = (n,)
+        c["d1"].write_direct(np.arange(n, dtype=float))
+
+    def da_reset(c):
+        c["da"].data_extent = (2, 2)
+        c["da"].write_direct(np.array([[1.0, 2.0], [3.0, 4.0]]))
+    add("DataArray.append", lambda c, **kw: c["d1"].append(**kw), lambda c: dict(data=[7.0, 8.0], axis=0), d1_reset)
+    add("DataArray(2d).append", lambda c, **kw: c["da"].append(**kw),
+        lambda c: dict(data=np.array([[7.0], [8.0]]), axis=1), da_reset)
+    add("DataArray[index]=", lambda c, **kw: c["d1"].__setitem__(kw["index"], kw["value"]),
+        lambda c: dict(index=[0, 2], value=[7.0, 8.0]), d1_reset)
+    add("DataArray(2d)[index]=", lambda c, **kw: c["da"].__setitem__(kw["index"], kw["value"]),
+        lambda c: dict(index=(1, 0), value=9.0), da_reset)
+    add("DataArray.write_direct", lambda c, **kw: c["da"].write_direct(**kw),
+        lambda c: dict(data=np.array([[5.0, 6.0], [7.0, 8.0]])), da_reset)
+    add("DataArray.data_extent=", lambda c, **kw: setattr(c["da"], "data_extent", kw["extent"]),
+        lambda c: dict(extent=(3, 2)), da_reset)
+    # --- data frame writes
+
+    def df_reset(c):
+        n = 4 if c["long"] else 2
+        rows = [(1, "u"), (2, "v"), (3, "w"), (4, "x")][:n]
+        if len(c["df"]) != n:
+            c["df"].data_extent = (n,)
+        c["df"].write_rows(rows, list(range(n)))
+    add("DataFrame.write_cell(position)", lambda c, **kw: c["df"].write_cell(**kw),
+        lambda c: dict(cell=7, position=(1, 0)), df_reset)
+    add("DataFrame.write_cell(col_name,row_idx)", lambda c, **kw: c["df"].write_cell(**kw),
+        lambda c: dict(cell="z", col_name="s", row_idx=1), df_reset)
+    add("DataFrame.write_column(index)", lambda c, **kw: c["df"].write_column(**kw),
+        lambda c: dict(column=[7] * len(c["df"]), index=0), df_reset)
+    add("DataFrame.write_column(name)", lambda c, **kw: c["df"].write_column(**kw),
+        lambda c: dict(column=["z"] * len(c["df"]), name="s"), df_reset)
+    add("DataFrame.write_rows", lambda c, **kw: c["df"].write_rows(**kw),
+        lambda c: dict(rows=[(7, "y"), (8, "z")], index=[1, 0]), df_reset)
+    add("DataFrame.append_rows", lambda c, **kw: c["df"].append_rows(**kw),
+        lambda c: dict(data=[(7, "y"), (8, "z")]), df_reset)
+    add("DataFrame.append_column", lambda c, **kw: c["df2"].append_column(**kw),
+        lambda c: dict(column=[1.5] * len(c["df2"]), name="extra", datatype=float), None)
+    add("DataFrame.units=", lambda c, **kw: setattr(c["df"], "units", kw["units"]),
+        lambda c: dict(units=["mV", "s"]), lambda c: setattr(c["df"], "units", None))
+    # --- link lists: the item(s) in every spelling an entity has
+
+    def unlink(key, cont, keep):
+        def reset(c):
+            lst = getattr(c[key], cont)
+            keep_ids = [c[k].id for k in keep]
+            for x in list(lst):
+                if x.id not in keep_ids:
+                    del lst[x.id]
+        return reset
+    add("Group.data_arrays.append", lambda c, **kw: c["g"].data_arrays.append(**kw), lambda c: dict(item=c["d1"]),
+        unlink("g", "data_arrays", ["da"]))
+    add("Group.data_arrays.extend", lambda c, **kw: c["g"].data_arrays.extend(**kw),
+        lambda c: dict(items=[c["d1"], c["ds"]]), unlink("g", "data_arrays", ["da"]))
+    add("Tag.references.extend", lambda c, **kw: c["t"].references.extend(**kw),
+        lambda c: dict(items=[c["d1"], c["dx"]]), unlink("t", "references", ["da"]))
+    add("DataArray.sources.append", lambda c, **kw: c["d1"].sources.append(**kw), lambda c: dict(item=c["src2"]),
+        unlink("d1", "sources", []))
+    add("DataArray.sources.extend", lambda c, **kw: c["d1"].sources.extend(**kw),
+        lambda c: dict(items=[c["src"], c["src2"]]), unlink("d1", "sources", []))
+    # --- links to single entities
+    add("MultiTag.positions=", lambda c, **kw: setattr(c["mt"], "positions", kw["positions"]),
+        lambda c: dict(positions=c["dx"]), lambda c: setattr(c["mt"], "positions", c["d1"]))
+    add("MultiTag.extents=", lambda c, **kw: setattr(c["mt"], "extents", kw["extents"]),
+        lambda c: dict(extents=c["d1"]), lambda c: setattr(c["mt"], "extents", None))
+    add("Feature.data=", lambda c, **kw: setattr(c["ft"], "data", kw["data"]),
+        lambda c: dict(data=c["d1"]), lambda c: setattr(c["ft"], "data", c["da"]))
+    add("Feature.link_type=", lambda c, **kw: setattr(c["ft"], "link_type", kw["link_type"]),
+        lambda c: dict(link_type=LT.Untagged), lambda c: setattr(c["ft"], "link_type", LT.Tagged))
+    add("Block.metadata=", lambda c, **kw: setattr(c["b2"], "metadata", kw["metadata"]),
+        lambda c: dict(metadata=c["s2"]), lambda c: setattr(c["b2"], "metadata", None))
+    add("Section.link=", lambda c, **kw: setattr(c["s2"], "link", kw["link"]),
+        lambda c: dict(link=c["s"]), lambda c: setattr(c["s2"], "link", None))
+    # --- stored vectors and values: the valid value in every spelling
+    add("Tag.position=", lambda c, **kw: setattr(c["t"], "position", kw["position"]),
+        lambda c: dict(position=[4.0, 5.0, 6.0]), lambda c: setattr(c["t"], "position", vec(c, [0.0], [0.0, 1.0, 2.0, 3.0])))
+    add("Tag.units=", lambda c, **kw: setattr(c["t"], "units", kw["units"]),
+        lambda c: dict(units=["ms", "Hz", "kV"]), lambda c: setattr(c["t"], "units", vec(c, ["mV"], ["mV", "s", "mV", "s"])))
+    add("RangeDimension.ticks=", lambda c, **kw: setattr(c["rd"], "ticks", kw["ticks"]),
+        lambda c: dict(ticks=[4.0, 5.0, 6.0]), reticks)
+    add("RangeDimension(linked).ticks=", lambda c, **kw: setattr(c["rl"], "ticks", kw["ticks"]),
+        lambda c: dict(ticks=[4.0, 5.0, 6.0]), relink_range)
+    add("SetDimension.labels=", lambda c, **kw: setattr(c["sd"], "labels", kw["labels"]),
+        lambda c: dict(labels=["p", "q", "r"]), relabels)
+    add("SetDimension(linked).labels=", lambda c, **kw: setattr(c["sl"], "labels", kw["labels"]),
+        lambda c: dict(labels=["p", "q", "r"]), relink_set)
+    add("DataArray.polynom_coefficients=", lambda c, **kw: setattr(c["da"], "polynom_coefficients", kw["coefficients"]),
+        lambda c: dict(coefficients=[4.0, 5.0, 6.0]),
+        lambda c: setattr(c["da"], "polynom_coefficients", vec(c, [0.0, 1.0], [0.0, 1.0, 2.0, 3.0])))
+    add("Property.values=", lambda c, **kw: setattr(c["pr"], "values", kw["values"]),
+        lambda c: dict(values=[7, 8, 9]), lambda c: setattr(c["pr"], "values", vec(c, [1, 2], [1, 2, 3, 4])))
+    add("Property(str).values=", lambda c, **kw: setattr(c["ps"], "values", kw["values"]),
+        lambda c: dict(values=["p", "q"]), lambda c: setattr(c["ps"], "values", vec(c, ["a"], ["a", "b", "c"])))
+    add("Property.extend_values", lambda c, **kw: c["pf"].extend_values(**kw),
+        lambda c: dict(data=[7.5, 8.5]), lambda c: setattr(c["pf"], "values", vec(c, [0.5], [0.5, 1.5, 2.5])))
+    add("Entity.force_updated_at", lambda c, **kw: c["da"].force_updated_at(**kw),
+        lambda c: dict(time=1600000000), lambda c: c["da"].force_updated_at(1600000000))
+    return C
+
+
+CALLS = _calls()
+# argument targets derived from the calls: label -> valid(c) of the varied argument
+VALID = {}
+
+
+def _argument_targets():
+    T = []
+    for label, fn, valid, reset in CALLS:
+        # the argument names are read off a probe of `valid` at sweep time; here off its source-independent keys:
+        # a scene is not available at import, so the table names them by calling valid on a key-recording stub
+        names = list(valid(_KeyStub()).keys())
+        for arg in names:
+            tl = "%s(%s=)" % (label, arg)
+
+            def call(c, v, fn=fn, valid=valid, arg=arg):
+                kw = dict(valid(c))
+                kw[arg] = v
+                return fn(c, **kw)
+            T.append((tl, call, reset))
+            VALID[tl] = (lambda c, valid=valid, arg=arg: valid(c)[arg])
+    return T
+
+
+class _KeyStub(dict):
+    """stands for the scene when only the argument names of a call are wanted"""
+
+    def __missing__(self, key):
+        return _Len2()
+
+
+class _Len2:
+    def __len__(self):
+        return 2
+
+
 SPELLINGS = _spellings()
-TARGETS = _targets()
+ARG_TARGETS = _argument_targets()
+TARGETS = _targets() + ARG_TARGETS
 TARGET_INDEX = {t[0]: t for t in TARGETS}
 SPELLING_INDEX = {s[0]: s for s in SPELLINGS}
 # targets whose accepted calls cannot be undone by a `reset`: the file is rebuilt after an accepted call
@@ -427,7 +727,8 @@ assert all(s in SPELLING_INDEX for s in CORE), [s for s in CORE if s not in SPEL
 
 # targets whose refusals usually come after a write that is rolled back (the flushed file's bytes change, so every
 # refusal costs a full snapshot): they get a shorter list of spellings
-ROLLBACK_PREFIXES = ("create_", "append_", "Section.create_property", "Section[new]=", "Tag.create_feature",
+ROLLBACK_PREFIXES = ("Block.create_", "File.create_", "Section.create_", "Source.create_", "File.copy_", "Section.copy_",
+                     "DataArray.append_", "DataArray(2d,linked dims).append_", "create_", "append_", "Section.create_property", "Section[new]=", "Tag.create_feature",
                      "MultiTag.create_feature", "DataArray.delete_dimensions+append", "DataFrame.append_column")
 # targets that write datasets (vectors, array data, tables, property values): in every quick run
 DATA_PREFIXES = ("Tag.position", "Tag.extent", "Tag.units", "MultiTag.units", "DataArray.polynom_coefficients",
@@ -437,6 +738,25 @@ DATA_PREFIXES = ("Tag.position", "Tag.extent", "Tag.units", "MultiTag.units", "D
                  "Property(str).extend_values", "Section[existing]=", "DataFrame.append_rows", "DataFrame.write_",
                  "append_set_dimension", "append_range_dimension(ticks)", "create_data_array(data)",
                  "create_tag(position)", "create_multi_tag(", "Section.create_property(values)", "create_data_frame(")
+
+
+# respellings every argument target sees in every run (those that exist for its valid value): one of each container /
+# scalar / text / entity spelling; the other respellings rotate (a random 30 of the ~150, of which a fifth apply)
+RE_CORE = ["re:" + r for r in (
+    "numseq:tuple", "numseq:ndarray", "numseq:ndarray-f8", "numseq:ndarray-object", "numseq:generator", "numseq:np-ints",
+    "numseq:floats", "numseq:fractions", "numseq:sequence-class", "numseq:scalar-of-single", "numseq:nested",
+    "num:np-int64", "num:np-float64", "num:float-of-int", "num:str", "num:0-d", "num:list-1", "num:bool",
+    "str:np-str", "str:bytes", "str:list-1", "str:0-d", "str:stringy-object",
+    "enum:value", "enum:name", "enum:value-upper", "enum:list-1", "enum:value-dtype",
+    "dtype:np-dtype", "dtype:name", "dtype:nix-datatype", "dtype:python-type", "dtype:instance",
+    "strseq:tuple", "strseq:ndarray", "strseq:ndarray-object", "strseq:generator", "strseq:bytes", "strseq:joined",
+    "seq:tuple", "seq:generator", "seq:ndarray-object", "seq:doubled",
+    "ndarray:list", "ndarray:object", "ndarray:str", "ndarray:complex", "ndarray:extra-axis",
+    "rows:lists", "rows:object-array", "rows:generator", "rows:np-scalars",
+    "map:pairs", "map:np-dtypes", "map:type-names", "map:mapping-class",
+    "entity:id", "entity:name", "entity:second-handle", "entity:list-1", "entity:uuid-object",
+    "bool:int", "bool:str")]
+assert all(r in RS.RESPELL_INDEX for r in RE_CORE), [r for r in RE_CORE if r not in RS.RESPELL_INDEX]
 
 
 def is_rollback(t):
@@ -452,13 +772,28 @@ def plan(tier, seed, rng, broken=False):
 
     quick: every data-writing target and a rotating quarter of the others, each in one of the two scenes (alternating
     with the seed), with the CORE spellings plus a random handful; rollback targets get a third of that.
+    Argument targets (one argument of a multi-argument call varied, the others valid): in every run, in one scene,
+    with EVERY respelling of the argument's valid value (those that do not exist for the value are skipped at no
+    cost) plus a few spellings of the common pool.
     thorough / broken obligation: every target in both scenes, CORE plus a large random part of the pool."""
     labels = [t[0] for t in TARGETS]
     allsp = [s[0] for s in SPELLINGS]
     rest = [s for s in allsp if s not in CORE]
+    respell = [r[0] for r in RS.RESPELLINGS]
     out = []
     big = tier != "quick" or broken
     for i, t in enumerate(labels):
+        if t in VALID:
+            if not big and is_rollback(t) and (i + seed) % 2 != 0:
+                continue            # creating / copying calls: every other quick run
+            scenes = (False, True) if big else ((i + seed) % 2 == 1,)
+            for long in scenes:
+                if big:
+                    out.append((long, t, respell + list(CORE) + rng.sample(rest, 12 if is_rollback(t) else 40)))
+                else:
+                    others = [r for r in respell if r not in RE_CORE]
+                    out.append((long, t, RE_CORE + rng.sample(others, 30) + rng.sample(CORE, 2)))
+            continue
         if not big and not is_data(t) and (i + seed) % 4 != 0:
             continue
         scenes = (False, True) if big else ((i + seed) % 2 == 1,)
